@@ -5,29 +5,8 @@
 // for every row count; windowed convolutions over a complete small box; pointwise mul/addmul on reim,
 // reim4 and interleaved complex for every m.  Floating-point oracle: binary128 complex arithmetic
 // with the standard a-priori bound gamma_k * sum|terms|.
-#include <quadmath.h>
-#include "../harness/bufs.hpp"
-#include "../harness/oracle.hpp"
-extern "C" {
-#include "cplx/cplx_fft_internal.h"
-#include "cplx/cplx_fft_private.h"
-#include "reim/reim_fft_internal.h"
-#include "reim/reim_fft_private.h"
-#include "reim4/reim4_arithmetic.h"
-#include "reim4/reim4_fftvec_internal.h"
-#include "reim4/reim4_fftvec_private.h"
-}
+#include "../harness/fporacle.hpp"
 using namespace vf;
-typedef __float128 q128;
-static const q128 U53 = 0x1p-53Q;
-static q128 gamma_k(int k) { return k * U53 / (1 - k * U53); }
-
-static double val(uint64_t idx, int range) {
-  static const double special[] = {0.0, -0.0, 1.0, -1.0, 0x1p300, -0x1p300, 0x1p-300, 3.5};
-  uint64_t h = (idx + 1) * 0x9E3779B97F4A7C15ull; h ^= h >> 31;
-  if (range == 1 && idx % 9 == 0) return special[(h >> 8) % 8];
-  return ((double)(int64_t)(h >> 20) - 8796093022208.0) / 4194304.0;
-}
 
 // ---- extract / save -----------------------------------------------------------------------------
 static void part_blocks(Ctx& ctx, uint64_t m, uint64_t b0, uint64_t b1) {
@@ -118,22 +97,6 @@ static void part_cplx(Ctx& ctx, uint64_t m, const CpuCfg& cfg) {
   ctx.end_case(true);
 }
 
-// ---- reim4 dot products and convolutions -----------------------------------------------------------
-static void r4_addmul_q(q128* acc, q128* accabs, const double* u, const double* v) {
-  for (int k = 0; k < 4; ++k) {
-    q128 a = u[k], b = u[k + 4], c = v[k], d = v[k + 4];
-    acc[k] += a * c - b * d; acc[k + 4] += a * d + b * c;
-    accabs[k] += fabsq(a * c) + fabsq(b * d); accabs[k + 4] += fabsq(a * d) + fabsq(b * c);
-  }
-}
-static bool within(const double* got, const q128* exact, const q128* absum, int n, int kops, std::string& err, const char* what) {
-  for (int i = 0; i < n; ++i) {
-    q128 tol = gamma_k(kops) * absum[i] + 0x1p-1000Q;
-    q128 e = fabsq((q128)got[i] - exact[i]);
-    if (!(e <= tol)) { err = sfmt("%s: component %d is %.17g, exact %.17g, error %.3g exceeds the a-priori bound %.3g", what, i, got[i], (double)exact[i], (double)e, (double)tol); return false; }
-  }
-  return true;
-}
 static void part_dot(Ctx& ctx, uint64_t nrows, int range) {
   std::string id = sfmt("reim4 dot products|nrows=%llu|values=%s", (unsigned long long)nrows, range ? "special" : "dense");
   if (!ctx.want(id)) return;
@@ -197,15 +160,6 @@ static void part_conv(Ctx& ctx) {
   }
 }
 
-// ---- pointwise mul / addmul -----------------------------------------------------------------------
-struct PCm { void* f; int64_t m; };
-typedef void (*pw_f)(const void*, void*, const void*, const void*);
-struct PW { const char* name; pw_f f; uint64_t minm; bool addmul; int layout; };  // layout 0 reim, 1 reim4, 2 cplx
-static inline void idx_of(int layout, uint64_t m, uint64_t i, uint64_t& re, uint64_t& im) {
-  if (layout == 0) { re = i; im = i + m; }
-  else if (layout == 1) { re = 8 * (i / 4) + (i % 4); im = re + 4; }
-  else { re = 2 * i; im = 2 * i + 1; }
-}
 static void part_pointwise(Ctx& ctx, const PW& k, uint64_t m, int range) {
   std::string id = sfmt("pointwise|%s|m=%llu|values=%s", k.name, (unsigned long long)m, range ? "special" : "dense");
   if (!ctx.want(id)) return;
@@ -217,17 +171,7 @@ static void part_pointwise(Ctx& ctx, const PW& k, uint64_t m, int range) {
   std::vector<uint8_t> as(a.p, a.p + a.bytes), bs(b.p, b.p + b.bytes);
   PCm pc{0, (int64_t)m};
   k.f(&pc, r.p, a.p, b.p);
-  std::string err;
-  for (uint64_t i = 0; i < m && err.empty(); ++i) {
-    uint64_t re, im; idx_of(k.layout, m, i, re, im);
-    q128 ar = a.as<double>()[re], ai = a.as<double>()[im], br = b.as<double>()[re], bi = b.as<double>()[im];
-    q128 er = ar * br - ai * bi, ei = ar * bi + ai * br;
-    q128 sr = fabsq(ar * br) + fabsq(ai * bi), si = fabsq(ar * bi) + fabsq(ai * br);
-    if (k.addmul) { er += r0[re]; ei += r0[im]; sr += fabsq((q128)r0[re]); si += fabsq((q128)r0[im]); }
-    q128 tolr = gamma_k(4) * sr + 0x1p-1000Q, toli = gamma_k(4) * si + 0x1p-1000Q;
-    q128 dr = fabsq((q128)r.as<double>()[re] - er), di = fabsq((q128)r.as<double>()[im] - ei);
-    if (!(dr <= tolr) || !(di <= toli)) err = sfmt("complex number %llu: got (%.17g, %.17g), exact (%.17g, %.17g)", (unsigned long long)i, r.as<double>()[re], r.as<double>()[im], (double)er, (double)ei);
-  }
+  std::string err = judge_pointwise(k, m, r.as<double>(), r0.data(), a.as<double>(), b.as<double>());
   if (err.empty() && (memcmp(a.p, as.data(), a.bytes) || memcmp(b.p, bs.data(), b.bytes))) err = "an operand was modified";
   if (err.empty() && (!r.guards_ok() || !a.guards_ok() || !b.guards_ok())) err = "write outside the 2m doubles";
   if (!err.empty()) ctx.violation(id, err);
@@ -238,16 +182,8 @@ int main(int argc, char** argv) {
   Args args = parse_args("C17", argc, argv, 420, 1800);
   Ctx ctx(args);
   const bool th = args.thorough();
-  PW pw[] = {
-      {"reim_fftvec_mul_ref", (pw_f)reim_fftvec_mul_ref, 1, false, 0}, {"reim_fftvec_mul_fma", (pw_f)reim_fftvec_mul_fma, 4, false, 0},
-      {"reim_fftvec_addmul_ref", (pw_f)reim_fftvec_addmul_ref, 1, true, 0}, {"reim_fftvec_addmul_fma", (pw_f)reim_fftvec_addmul_fma, 4, true, 0},
-      {"reim4_fftvec_mul_ref", (pw_f)reim4_fftvec_mul_ref, 4, false, 1}, {"reim4_fftvec_mul_fma", (pw_f)reim4_fftvec_mul_fma, 4, false, 1},
-      {"reim4_fftvec_addmul_ref", (pw_f)reim4_fftvec_addmul_ref, 4, true, 1}, {"reim4_fftvec_addmul_fma", (pw_f)reim4_fftvec_addmul_fma, 4, true, 1},
-      {"cplx_fftvec_mul_ref", (pw_f)cplx_fftvec_mul_ref, 1, false, 2}, {"cplx_fftvec_mul_fma", (pw_f)cplx_fftvec_mul_fma, 8, false, 2},
-      {"cplx_fftvec_addmul_ref", (pw_f)cplx_fftvec_addmul_ref, 1, true, 2}, {"cplx_fftvec_addmul_fma", (pw_f)cplx_fftvec_addmul_fma, 4, true, 2},
-      {"cplx_fftvec_addmul_sse", (pw_f)cplx_fftvec_addmul_sse, 2, true, 2}, {"cplx_fftvec_addmul_avx512", (pw_f)cplx_fftvec_addmul_avx512, 8, true, 2},
-  };
-  const int npw = sizeof(pw) / sizeof(pw[0]);
+  std::vector<PW> pw = pointwise_kernels();
+  const int npw = (int)pw.size();
   struct It { int part; uint64_t m, b0, b1; int k; CpuCfg cfg; };
   std::vector<It> items;
   const uint64_t mmax = th ? 65536 : 4096;
